@@ -253,13 +253,18 @@ def subq_case(draw):
     else:
         pred = f"{oc} {op} ({sub})"
     c0, c1 = queries.SCHEMA[t1][0][0], queries.SCHEMA[t1][1][0]
-    outer = draw(st.sampled_from(("rows", "rows", "count", "and", "or")))
+    outer = draw(st.sampled_from(("rows", "rows", "count", "and", "or", "project", "isnull")))
     if outer == "count":
         sql = f"SELECT COUNT(*) AS o0, SUM(x1.{c1}) AS o1 FROM {t1} AS x1 WHERE {pred}"
     elif outer == "and":
         sql = f"SELECT x1.{c0} AS o0, x1.{c1} AS o1 FROM {t1} AS x1 WHERE {pred} AND {q.bool_expr(scope, 0, False)}"
     elif outer == "or":
         sql = f"SELECT x1.{c0} AS o0, x1.{c1} AS o1 FROM {t1} AS x1 WHERE {pred} OR {q.bool_expr(scope, 0, False)}"
+    elif outer == "project":
+        # the predicate's VALUE is observed (TRUE / FALSE / NULL), not just whether the row passes a filter
+        sql = f"SELECT x1.{c0} AS o0, CASE WHEN {pred} THEN 1 WHEN NOT ({pred}) THEN 0 END AS o1 FROM {t1} AS x1"
+    elif outer == "isnull":
+        sql = f"SELECT x1.{c0} AS o0, x1.{c1} AS o1 FROM {t1} AS x1 WHERE ({pred}) IS {draw(st.sampled_from(('NULL', 'NOT NULL', 'NOT TRUE')))}"
     else:
         sql = f"SELECT x1.{c0} AS o0, x1.{c1} AS o1 FROM {t1} AS x1 WHERE {pred}"
     feats = {f"subq:{shape}", f"subq-outer:{outer}", "subquery"} | ({"subq:negated"} if neg else set()) | q.f
